@@ -316,7 +316,14 @@ def rcfg_config_verbatim(ctx):
     config_field_integrity(ctx, "C07.CFG", "max_request_body_size")
 
 
-RULES = [r1_ws_frame_limit, r2_http_limit, r3_plumbing, r4_limit_before_read, r5_ws_oversize_arm, r6_size_gates, r7_server_builder_fields, rsib_entry_points_agree, rcfg_config_verbatim]
+
+def rstatus_http_status_table(ctx):
+    """the HTTP refusals relevant here carry their own status codes"""
+    from .common import http_status_table
+    http_status_table(ctx, "C07.STATUS", ('too_large', 'internal_error', 'malformed'))
+
+
+RULES = [r1_ws_frame_limit, r2_http_limit, r3_plumbing, r4_limit_before_read, r5_ws_oversize_arm, r6_size_gates, r7_server_builder_fields, rsib_entry_points_agree, rcfg_config_verbatim, rstatus_http_status_table]
 
 LEVEL_TEXT = (
     "Structural necessary conditions decided exactly from the type-checked program: which configuration field every "
